@@ -25,7 +25,7 @@ from vlib.elf import Elf
 
 PROP = "C37"
 META = {
-    "ready": False,
+    "ready": True,
     "level": "model_checking",
     "technique": "TLA+ spec of the as-needed modifier stack and of DT_NEEDED selection (property rule, GNU ld's sequential rule, transcription of wild) enumerated exhaustively by TLC in small scope; enumerated link lines replayed into the real wild, GNU ld and lld and DT_NEEDED compared",
     "level_text": "TLC enumerates every link line in the bound (all flag sequences of up to 3/5 --as-needed/--no-as-needed/--push-state/--pop-state tokens around two libraries; two or three libraries x main.o x a second object or archive member in every command-line order x strong/weak/no references x a name defined by several files) and checks that wild's stack machine equals the declarative modifier state and that the transcription of wild's loading rule yields the property's DT_NEEDED or GNU ld's, except in one exactly characterised class. A seeded sample of the enumerated cases (hundreds in quick, thousands in thorough) is linked with the real wild, GNU ld 2.40 and lld 14 in three output kinds; both reference rules of the spec are validated against the real linkers and wild's DT_NEEDED must equal one of them.",
@@ -174,7 +174,7 @@ def run(ctx):
         raise ToolError(f"only {len(records)} REPLAY records")
     build_wild()
     records.sort(key=lambda r: (r["idx"], str(r["tokens"])))
-    budget = 400 if ctx.quick else 3000
+    budget = 300 if ctx.quick else 2000
     if len(records) > budget:
         records = rng.sample(records, budget)
     model_errors, replayed, stale, wild_failed = [], 0, 0, []
